@@ -57,7 +57,11 @@ func main() {
 			fmt.Println(err)
 			os.Exit(2)
 		}
-		fw.DumpFunc(prog, os.Args[2])
+		if os.Getenv("GMSL_TABLE") != "" {
+			fw.DumpTable(prog, os.Args[2], -1)
+		} else {
+			fw.DumpFunc(prog, os.Args[2])
+		}
 	case "check":
 		if len(os.Args) < 3 {
 			usage()
